@@ -76,7 +76,7 @@ def parse_result_text(text):
 
 
 PLAYBACK_RE = re.compile(
-    r"/// Check for `[^`]*`: \"(.*?)\"\s*\n\s*\n?#\[test\]\nfn (\w+)\(\) \{\n\s*let concrete_vals: Vec<Vec<u8>> = vec!\[(.*?)\n\s*\];",
+    r"/// Check for `[^`]*`: \"(.*?)\"[ \t]*\n(?:[ \t]*///[^\n]*\n|[ \t]*\n)*#\[test\]\nfn (\w+)\(\) \{\n\s*let concrete_vals: Vec<Vec<u8>> = vec!\[(.*?)\n\s*\];",
     re.S,
 )
 
